@@ -79,6 +79,11 @@ def main(tier, seed):
             silent_cases.append(dict(label=[name, 'junk_every_6s_after_step', k], acceptor=acceptor,
                                      ops=base + [('idle',)] + [('tick', 6), ('seg', junk), ('idle',), ('idle',)] * 3 +
                                      [('tick', 1)] + [('idle',)] * 3))
+            # the same with a well-framed P-DATA-TF that cannot be reassembled (message control header 7)
+            bad = b'\x04\x00\x00\x00\x00\x0a\x00\x00\x00\x06\x01\x07abcd'
+            silent_cases.append(dict(label=[name, 'unusable_pdata_every_6s_after_step', k], acceptor=acceptor,
+                                     ops=base + [('idle',)] + [('tick', 6), ('seg', bad), ('idle',), ('idle',)] * 3 +
+                                     [('tick', 1)] + [('idle',)] * 3))
             # stop requested at this quiescent point
             stop_cases.append(dict(label=[name, 'kill_after_step', k], acceptor=acceptor, ops=base + [('kill',)]))
             # peer disconnects after every byte prefix of its next PDU
